@@ -11,14 +11,17 @@ TB = ("Lean 4.33 kernel with propext/Classical.choice/Quot.sound only (audited p
 CHECKS = {
     "C01": dict(
         category="proof", design_ref="DESIGN.md section 2 / C01",
-        technique="Lean 4 theorem (induction over gate list, arbitrary hash functions) + byte-exact model/implementation correspondence",
+        technique="Lean 4 theorem (induction over gate list, arbitrary hash functions) + translator-regenerated leaf definitions with tie theorems (harness/cmd/gofacts translate -> Gen/Leaf.lean on every run) + byte-exact model/implementation correspondence",
         text=("Lean theorems C01_garbled_eq_plain / C01_decode / C01_label_is_one_of_two / C01_compute_eq_plain: for every "
               "well-formed circuit, input, hash-function pair (hence every AES key), offset and input labels, garbled "
               "evaluation takes no error branch and each defined wire carries the label of the plain-evaluation bit. The "
               "model is the same Lean definition that is executed with Lean AES and compared byte for byte with the real "
               "Circuit.Garble/Eval/Compute on generated circuits on every run; an implementation-side oracle "
-              "(BitFromLabel vs reference evaluator vs Compute) searches for concrete failing inputs."),
-        note=TB + "AES is an arbitrary function in the theorems; tweak counter modelled as Nat; WF excludes circuits "
+              "(BitFromLabel vs reference evaluator vs Compute) searches for concrete failing inputs. The leaf functions "
+              "(ot.Label S/SetS/Mul2/Mul4/Xor/And/Equal/Bit/SetBit/GetData/SetData, NewTweak, circuit idx/idxUnary/makeK/makeKHalf/"
+              "encrypt/decrypt/encryptHalf/LabelForBit) are TRANSLATED from the current Go source into Lean on every run and proved "
+              "equal to the model's definitions (26 tie theorems); an unsupported construct or a failed tie is a broken obligation."),
+        note=TB + "The go/ast translator (straight-line subset; block cipher call is a parameter). AES is an arbitrary function in the theorems; tweak counter modelled as Nat; WF excludes circuits "
                   "overwriting input wires."),
 }
 
@@ -134,15 +137,16 @@ CHECKS["C04"] = dict(
 
 CHECKS["C06"] = dict(
     category="proof", design_ref="DESIGN.md section 2 / C06",
-    technique="Lean 4 theorems (lock-step induction over chunk and batch loops of both parties; arbitrary PRG streams, block cipher, abstract commutative group, abstract RSA key relation) + byte-exact model/implementation correspondence + implementation-side oracle over all five OT implementations",
+    technique="Lean 4 theorems (lock-step induction over chunk and batch loops of both parties; arbitrary PRG streams, block cipher, abstract commutative group, abstract RSA key relation) + byte-exact model/implementation correspondence (IKNP/COT/ROT/MITCCRH on deterministic tapes; real ot.CO over p2p.Conn, both wire streams and the receiver's labels, against the generic CO model instantiated with a Lean P-256 and SHA-256) + implementation-side oracle over all five OT implementations",
     text=("IKNP label form recv_i = sent_i xor b_i*Delta holds for every n and every sequence of calls on one instance, also "
           "in malicious mode; createLabels is the bit-matrix transpose; the packed-bit form is characterised exactly; "
-          "COT/ROT deliver for every batch size, cipher and seed end to end over IKNP; Chou-Orlandi masks agree in every "
-          "commutative group; RSA OT recovers the blinding key. On every run the real IKNP/COT/ROT/MITCCRH are compared "
+          "COT/ROT deliver for every batch size, cipher and seed end to end over IKNP, also with the base OTs instantiated by "
+          "Chou-Orlandi with reversed roles (C06_iknp_over_co); Chou-Orlandi delivers in every commutative group, stated on the "
+          "HEAD helpers incl. the on-curve checks of 68f93f2 / 0e7671a; RSA OT recovers the blinding key. On every run the real IKNP/COT/ROT/MITCCRH are compared "
           "byte for byte with the executed Lean model on deterministic tapes; the oracle checks receiver = chosen sender "
           "label for RSA, CO (protocol, helpers), IKNP, COT, ROT in both adversary modes, shared/non-shared mode, repeated "
           "batches, sizes 1..2049 biased to mod 8/64/128/512 boundaries."),
-    note=TB + "IKNP theorems relative to delivered base OTs; crypto/elliptic trusted (CO proved in an abstract group); RSA key "
+    note=TB + "P-256 (crypto/elliptic) and its Lean re-implementation being a commutative group is trusted, not proved (executed only for the byte comparison; CO proved in an abstract group); RSA key "
               "relation and PKCS#1 round trip are hypotheses; the malicious consistency check itself is C15.")
 
 CHECKS["C20"] = dict(
